@@ -6,6 +6,7 @@ import Plonk.Model.Transcript
 import Plonk.Model.Kzg
 import Plonk.Model.Verifier
 import Plonk.Model.Prover
+import Plonk.Driver.Forge
 import Plonk.Model.Codec
 import Plonk.Driver.Parse
 import Plonk.Driver.Kernels
@@ -325,6 +326,36 @@ def proveAnswer (line : String) : String :=
       | some (.error e), _, _, _ => "err:srs:" ++ e.name
       | _, _, _, _ => "bad-request"
     | _ => "bad-request"
+  | _ => "bad-request"
+
+/-- `provelie <k> <delta> <shift 0|1> prove …`: the lying prover of Driver/Forge.lean on a `prove` request; prints the forged
+    proof, the public inputs and the verifier bytes -/
+def proveLieAnswer (line : String) : String :=
+  match (line.splitOn " ").filter (· ≠ "") with
+  | "provelie" :: kk :: dl :: sh :: rest =>
+    let rline := String.intercalate " " rest
+    match kk.toNat?, parseHex? dl, rline.splitOn "||" with
+    | some lie, some delta, [head, a, b] =>
+      match (head.splitOn " ").filter (· ≠ "") with
+      | "prove" :: deg :: d1 :: d2 :: d3 :: label :: draws :: ver :: _ =>
+        let lite : Option (Except KErr (SRS × Nat)) :=
+          match deg.toNat?, drawOf? d1, drawOf? d2, drawOf? d3 with
+          | some deg, some a, some b, some c => some (SRS.setupLite deg [a, b, c])
+          | _, _, _, _ => none
+        match lite, parseBytes? label, optionAll drawOf? (draws.splitOn ","), verName? ver with
+        | some (.ok (srs, srsLen)), some label, some draws, some ver =>
+          let sa := runProg a
+          let sb := runProg b
+          if sa.bad.isSome || sb.bad.isSome then "bad-op" else
+          match compile srs srsLen label sa.c with
+          | .error e => "err:" ++ pErrName e
+          | .ok k =>
+            match proveLying lie delta (sh == "1") k sb.c draws (ver == .v3) with
+            | .error e => s!"err:{pErrName e}"
+            | .ok tr => s!"proof={showBytes tr.proof.toBytes} pis={showList tr.pis} x={toHex srs.x} vbytes={showBytes (k.verifier srs).toBytes}"
+        | _, _, _, _ => "bad-request"
+      | _ => "bad-request"
+    | _, _, _ => "bad-request"
   | _ => "bad-request"
 
 end Plonk.Driver
